@@ -203,7 +203,7 @@ DECOR = {"C01": 0.25, "C03": 0.1, "C07": 0.1, "C19": 0.2}
 def make_case(prop, rng, gen_opts=None):
     # xM shortcuts in surface cards only for the unedited round trip: an edited product is written with a real
     # multiplier ('3.1 20.6451613m'), which the parser rejects (C08/C12's subject)
-    opts = dict(lattice_arrays=True, multiply_surfaces=(prop == "C01"))
+    opts = dict(lattice_arrays=True, multiply_surfaces=(prop == "C01"), joint_imp_cards=True)
     opts.update(gen_opts or {})
     wild = rng.random() < WILD[prop]
     return rt.gen_case(rng, wild=wild, opts=opts, decorate_p=DECOR[prop])
